@@ -183,6 +183,14 @@ def reveals(prog):
             for x in walk(inl):
                 if x[0] == "agg" and x[1].endswith("::WallGeom"):
                     lits.append((dict(zip(x[2], x[3])), t.get("ln")))
+    # the same literal can be met twice (as written, and again inside the inlined helper it is passed to): keep one of each
+    uniq, seen_l = [], set()
+    for fl, ln in lits:
+        sig = tuple(sorted((k_, show(strip(v_))) for k_, v_ in fl.items()))
+        if sig not in seen_l:
+            seen_l.add(sig)
+            uniq.append((fl, ln))
+    lits = uniq
     out = []
     for fl, ln in lits:
         # tilt of the reveal: the wall's plus quarter turns ("rel", k) or a constant number of quarter turns ("abs", k)
